@@ -328,3 +328,195 @@ pub fn fec_try_decode(
     }
     decoder.source_block().ok().map(|b| b.to_vec())
 }
+
+// -------------------------------------------------------------------------------------------------
+// ring buffer, decompressors, BlockWriter (verification engine `ring`)
+
+/// The private receiver modules `blockdecoder`, `uncompress` and `blockwriter`, compiled a second
+/// time FROM THE SAME SOURCE FILES: they are private to `receiver`, and a hook may not touch any
+/// other file.  No source text is copied; what runs is `src/receiver/{blockdecoder,uncompress,blockwriter}.rs`.
+#[allow(dead_code, unused_imports, missing_docs)]
+#[path = "receiver/blockdecoder.rs"]
+mod blockdecoder;
+#[allow(dead_code, unused_imports, missing_docs)]
+#[path = "receiver/blockwriter.rs"]
+mod blockwriter;
+#[allow(dead_code, unused_imports, missing_docs)]
+#[path = "receiver/uncompress.rs"]
+mod uncompress;
+#[allow(unused_imports)]
+use crate::receiver::writer;
+
+/// Outcome of a `read` on the ring buffer or on a decompressor
+#[derive(Debug, Clone, PartialEq, Eq)]
+pub enum HookRead {
+    /// `Ok(n)`
+    Ok(usize),
+    /// `Err` of kind `WouldBlock`
+    WouldBlock,
+    /// any other `Err`
+    Err(String),
+}
+
+fn hook_read(r: std::io::Result<usize>) -> HookRead {
+    match r {
+        Ok(n) => HookRead::Ok(n),
+        Err(e) if e.kind() == std::io::ErrorKind::WouldBlock => HookRead::WouldBlock,
+        Err(e) => HookRead::Err(format!("{:?}", e.kind())),
+    }
+}
+
+/// `tools::ringbuffer::RingBuffer`
+#[derive(Debug)]
+pub struct RingHandle(crate::tools::ringbuffer::RingBuffer);
+
+impl RingHandle {
+    /// `RingBuffer::new(size)`
+    pub fn new(size: usize) -> RingHandle {
+        RingHandle(crate::tools::ringbuffer::RingBuffer::new(size))
+    }
+    /// `<RingBuffer as std::io::Write>::write`
+    pub fn write(&mut self, data: &[u8]) -> std::io::Result<usize> {
+        std::io::Write::write(&mut self.0, data)
+    }
+    /// `<RingBuffer as std::io::Read>::read`
+    pub fn read(&mut self, buf: &mut [u8]) -> HookRead {
+        hook_read(std::io::Read::read(&mut self.0, buf))
+    }
+    /// `RingBuffer::finish`
+    pub fn finish(&mut self) {
+        self.0.finish()
+    }
+    /// the derived `Debug` output (`RingBuffer { buffer: [..], producer: p, consumer: c, finish: f }`)
+    pub fn debug(&self) -> String {
+        format!("{:?}", self.0)
+    }
+}
+
+/// `receiver::uncompress::Decompress{Zlib,Deflate,Gzip}` behind the `Decompress` trait object, as
+/// `BlockWriter::init_decoder` builds it
+#[derive(Debug)]
+pub struct DecompressHandle(Box<dyn uncompress::Decompress>);
+
+impl DecompressHandle {
+    /// `Decompress{Zlib,Deflate,Gzip}::new(first_pkt)`; `None` for `Cenc::Null`
+    pub fn new(cenc: lct::Cenc, first_pkt: &[u8]) -> Option<DecompressHandle> {
+        use uncompress::{DecompressDeflate, DecompressGzip, DecompressZlib};
+        Some(DecompressHandle(match cenc {
+            lct::Cenc::Null => return None,
+            lct::Cenc::Zlib => Box::new(DecompressZlib::new(first_pkt)),
+            lct::Cenc::Deflate => Box::new(DecompressDeflate::new(first_pkt)),
+            lct::Cenc::Gzip => Box::new(DecompressGzip::new(first_pkt)),
+        }))
+    }
+    /// `Decompress::write` (into the ring buffer)
+    pub fn write(&mut self, data: &[u8]) -> std::io::Result<usize> {
+        self.0.write(data)
+    }
+    /// `Decompress::read` (from the flate2 decoder)
+    pub fn read(&mut self, buf: &mut [u8]) -> HookRead {
+        hook_read(self.0.read(buf))
+    }
+    /// `Decompress::finish`
+    pub fn finish(&mut self) {
+        self.0.finish()
+    }
+}
+
+/// What `blockwriter_run` observed
+#[derive(Debug, Clone, Default)]
+pub struct BlockWriterRun {
+    /// result of `BlockWriter::write` for each block, in order (`Err` ends the run)
+    pub results: Vec<std::result::Result<bool, String>>,
+    /// size of every `ObjectWriter::write` call, in order
+    pub writes: Vec<usize>,
+    /// the bytes handed to the object writer, concatenated
+    pub output: Vec<u8>,
+    /// `BlockWriter::is_completed` at the end
+    pub completed: bool,
+    /// `BlockWriter::get_md5` at the end
+    pub md5: Option<String>,
+}
+
+struct CollectWriter {
+    out: std::cell::RefCell<(Vec<usize>, Vec<u8>)>,
+}
+
+impl writer::ObjectWriter for CollectWriter {
+    fn open(&self, _now: SystemTime) -> crate::error::Result<()> {
+        Ok(())
+    }
+    fn write(&self, _sbn: u32, data: &[u8], _now: SystemTime) -> crate::error::Result<()> {
+        let mut o = self.out.borrow_mut();
+        o.0.push(data.len());
+        o.1.extend_from_slice(data);
+        Ok(())
+    }
+    fn complete(&self, _now: SystemTime) {}
+    fn error(&self, _now: SystemTime) {}
+    fn interrupted(&self, _now: SystemTime) {}
+    fn enable_md5_check(&self) -> bool {
+        true
+    }
+}
+
+/// Runs the real `receiver::blockwriter::BlockWriter` (`new`, then `write` for SBN 0, 1, ...) over an
+/// object whose source blocks are `blocks` (each 1..=65535 bytes; transfer length = their total
+/// size).  Every block is a genuinely completed `BlockDecoder` (No-Code, one symbol, fed through
+/// `new_alc_pkt` / `parse_alc_pkt` / `BlockDecoder::push`).  Returns `None` if a block cannot be built.
+pub fn blockwriter_run(
+    cenc: lct::Cenc,
+    blocks: &[Vec<u8>],
+    content_length: Option<usize>,
+    md5: bool,
+) -> Option<BlockWriterRun> {
+    use blockdecoder::BlockDecoder;
+    use blockwriter::BlockWriter;
+    let now = SystemTime::now();
+    let transfer_length: usize = blocks.iter().map(|b| b.len()).sum();
+    let mut bw = BlockWriter::new(transfer_length, content_length, cenc, md5);
+    let w = CollectWriter {
+        out: std::cell::RefCell::new((Vec::new(), Vec::new())),
+    };
+    let mut run = BlockWriterRun::default();
+    for (sbn, data) in blocks.iter().enumerate() {
+        if data.is_empty() || data.len() > 65535 {
+            return None;
+        }
+        let oti = oti::Oti::new_no_code(data.len() as u16, 1);
+        let p = Pkt {
+            payload: data.clone(),
+            transfer_length: transfer_length as u64,
+            esi: 0,
+            sbn: sbn as u32,
+            toi: 1,
+            fdt_id: None,
+            cenc,
+            inband_cenc: false,
+            close_object: false,
+            source_block_length: 1,
+            sender_current_time: false,
+        };
+        let bytes = alc::new_alc_pkt(&oti, &0u128, 1, &p, Profile::RFC6726, now);
+        let pkt = alc::parse_alc_pkt(&bytes).ok()?;
+        let payload_id = alc::parse_payload_id(&pkt, &oti).ok()?;
+        let mut block = BlockDecoder::new();
+        block.init(&oti, 1, data.len(), sbn as u32).ok()?;
+        block.push(&pkt, &payload_id);
+        if !block.completed {
+            return None;
+        }
+        let r = bw.write(sbn as u32, &block, &w, now);
+        let stop = r.is_err();
+        run.results.push(r.map_err(|e| format!("{:?}", e)));
+        if stop {
+            break;
+        }
+    }
+    run.completed = bw.is_completed();
+    run.md5 = bw.get_md5().map(|s| s.to_string());
+    let o = w.out.into_inner();
+    run.writes = o.0;
+    run.output = o.1;
+    Some(run)
+}
